@@ -8,7 +8,7 @@ import time
 
 from sim import c14
 from sim.core import COMPONENTS, EXIT_OK, EXIT_VIOLATION, REPO_SRC, VERIF, H, HarnessError, digest, jdump, log, write_evidence
-from sim.engine import Engine, load_known, match_known, write_replay
+from sim.engine import Engine, dump_digests, load_known, match_known, write_replay
 from sim.popgen import date_pool
 
 PROP = "C14"
@@ -301,6 +301,7 @@ def run_check(tier: str, seed: int, runs: int | None = None, parallel: int | Non
                     log(f"note: known finding {f.get('id')} no longer reproduces")
 
         results = engine.map_runs(one, range(T["runs"]), progress=max(16, T["runs"] // 10))
+        dump_digests(PROP, results)
         for i in sorted(results):
             r = results[i]
             _account(stats, r, i)
